@@ -4,6 +4,7 @@ from engine.prov import const_int
 from engine import cfg
 from .common import Table, client_dispatch_poll, reachable_local_fns, norm_path, remaining_time, message_send_sites
 
+EXTRA_CONFIGS = ('serde1', 'serde-transport')   # feature configurations re-analysed in the thorough tier
 META = {
     'level': 'other',
     'technique': 'static provenance of the deadline value through (de)serialisation code, derive-generated visitors, dispatch and server registration (MIR), plus who-may-write',
